@@ -454,6 +454,9 @@ impl Interaction {
         vars: VAR,
     ) -> Result<Self, String> {
         let mat = mat.into();
+        if mat.iter().any(|m| *m < 0.) {
+            return Err("Interaction contains negative weights".to_string());
+        }
         let n = get_power_of_two(mat.len())
             .map_err(|_| format!("Matrix size must be power of 2, was {}", mat.len()))?;
         let vars = vars.into();
